@@ -4,7 +4,7 @@ import numpy as np
 
 from vf import util, sysrun
 from vf.instrument import StepLog
-from vf.problems import Manufactured, dtype_of, rng_for
+from vf.problems import Manufactured, Scaled, LateBump, QuietBump, dtype_of, rng_for
 
 LEVEL = "exploration"
 RULE = ("one case = (adaptive method or Richardson wrapper, problem class+seed, tolerance decade, direction, initial-dt class); the run's "
@@ -12,9 +12,9 @@ RULE = ("one case = (adaptive method or Richardson wrapper, problem class+seed, 
         "step() wrapper logs every attempt and consecutive attempts from the same state must strictly shrink after a controller "
         "rejection; non-trivial = >=5 recorded steps; distinct by (method, problem, tol decade, direction, dt class)")
 ASSUMPTIONS = ["problems are contractive along the direction of integration (logarithmic norm <= 0), so the problem's own amplification is ~1",
-               "K=200 tolerance units (worst observed on the repaired tree is recorded in evidence as worst_observed.tol_ratio)"]
-FLOORS = {"quick": {"runs_checked": 45, "local_steps_checked": 1000, "rejected_attempts_forward": 30, "rejected_attempts_backward": 30, "blowup_runs": 6, "blowup_raised": 1},
-          "thorough": {"runs_checked": 400, "local_steps_checked": 10000, "rejected_attempts_forward": 300, "rejected_attempts_backward": 300, "blowup_runs": 40, "blowup_raised": 5}}
+               "tolerance unit per component: atol + rtol*max(|y_i|, 0.1*max_j|y_j|) (a component passing through zero is judged on the scale of the solution)"]
+FLOORS = {"quick": {"runs_checked": 45, "local_steps_checked": 1000, "rejected_attempts_forward": 30, "rejected_attempts_backward": 30, "blowup_runs": 6, "blowup_raised": 1, "closing_step_rejected": 8},
+          "thorough": {"runs_checked": 400, "local_steps_checked": 10000, "rejected_attempts_forward": 300, "rejected_attempts_backward": 300, "blowup_runs": 40, "blowup_raised": 5, "closing_step_rejected": 30}}
 K_TOL = 200.0
 K_GLOB = 20.0
 K_LOC = 50.0
@@ -82,6 +82,39 @@ def gen_cases(tier, seed):
             cases.append(dict(kind="tol", method=name, rich=0, problem=str(rng.choice(["ms", "lin"])), dim=int(rng.integers(2, 5)),
                               rtol=rt, atol=rt * 10 ** float(rng.uniform(-3, 0)), t0=t0, tf=t0 + d * span, dt=frac * span * float(rng.choice([-1, 1])), dtfrac=frac,
                               pseed=int(rng.integers(1 << 30)), cost=(3 if info["explicit"] else 25) * (1 + (-np.log10(rt)) / 4)))
+    # solution magnitudes far from 1 with atol and rtol far apart (atol vs rtol*|y| must be told apart), and problems that are quiet
+    # until a sharp feature just before the end (the closing step of the call is rejected and retried)
+    for name in adaptive:
+        info = M[name]
+        if name == "RadauIIA19" and tier == "quick":
+            continue
+        for r in range(2 if tier == "quick" else 10):
+            d = 1 if r % 2 == 0 else -1
+            span = float(rng.uniform(1.5, 4.0))
+            t0 = float(rng.uniform(-3, 3))
+            S = float(rng.choice([1e-4, 1e3]))
+            fac = 10 ** float(rng.uniform(-1, 1))
+            if S > 1:      # |y| ~ 1e3: tolerance dominated by atol (a swap of atol and rtol is ~1e3 too loose)
+                rt_, at_ = 1e-11 * fac, 1e-5 * fac
+            else:          # |y| ~ 1e-4: tolerance dominated by rtol*|y| (a swap is ~1e4 too loose)
+                rt_, at_ = 1e-5 * fac, 1e-13 * fac
+            cases.append(dict(kind="tol", method=name, rich=0, problem="ms_scaled", scale=S, dim=2, rtol=rt_, atol=at_, t0=t0, tf=t0 + d * span,
+                              dt=0.05 * span, dtfrac=0.05, pseed=int(rng.integers(1 << 30)), cost=(4 if info["explicit"] else 30)))
+            if info["order"] <= 5:
+                for dtf in (0.01, 5.0):
+                    cases.append(dict(kind="tol", method=name, rich=0, problem="quiet_bump", dim=2, rtol=10 ** float(rng.uniform(-7, -4)), atol=10 ** float(rng.uniform(-8, -5)),
+                                      t0=t0, tf=t0 + d * span, dt=dtf * span, dtfrac=dtf, pseed=int(rng.integers(1 << 30)), cost=(4 if info["explicit"] else 30)))
+            if info["order"] <= 5:   # (estimators of the order >= 8 pairs are blind to a feature narrower than their steps: not "smooth" at their scale)
+              cases.append(dict(kind="tol", method=name, rich=0, problem="ms_bump", dim=2, rtol=10 ** float(rng.uniform(-7, -4)), atol=1e-9, t0=t0, tf=t0 + d * span,
+                              dt=0.05 * span, dtfrac=0.05, pseed=int(rng.integers(1 << 30)), cost=(4 if info["explicit"] else 30)))
+    # the closing (clipped) step of a call is rejected and retried: constructed deterministically from a reference run
+    for name in [n for n in adaptive if M[n]["order"] <= 8 and n != "RadauIIA19"]:
+        for r in range(2 if tier == "quick" else 8):
+            d = 1 if r % 2 == 0 else -1
+            span = float(rng.uniform(1.0, 3.0))
+            t0 = float(rng.uniform(-3, 3))
+            cases.append(dict(kind="closing", method=name, rich=0, problem="quiet_bump", dim=2, rtol=10 ** float(rng.uniform(-7, -4)), atol=10 ** float(rng.uniform(-8, -5)),
+                              t0=t0, tf=t0 + d * span, dt=0.01 * span, dtfrac=0.01, pseed=int(rng.integers(1 << 30)), cost=(8 if M[name]["explicit"] else 60)))
     # Richardson wrappers
     rbases = ["RK4Solver", "MidpointSolver", "EulerSolver", "RK45CKSolver"] + (["HeunsSolver", "ImplicitMidpoint", "RK5Solver", "BackwardEuler"] if tier == "thorough" else [])
     for name in rbases:
@@ -134,6 +167,12 @@ def run_case(spec):
     dt = np.dtype("float64")
     if spec["problem"] == "ms":
         prob = Manufactured(spec["dim"], spec["pseed"], direction=d)
+    elif spec["problem"] == "ms_scaled":
+        prob = Scaled(Manufactured(spec["dim"], spec["pseed"], direction=d), spec["scale"])
+    elif spec["problem"] == "quiet_bump":
+        prob = QuietBump(spec["dim"], spec["pseed"], t0, tf)
+    elif spec["problem"] == "ms_bump":
+        prob = LateBump(Manufactured(spec["dim"], spec["pseed"], direction=d), t0, tf)
     else:
         prob = LinExp(spec["dim"], spec["pseed"], d)
         prob.t0 = t0
@@ -143,6 +182,28 @@ def run_case(spec):
     rec = util.Rec(sig="%s|%s|%d|%d|%s|%d" % (label, spec["problem"], decade, d, spec["dtfrac"], spec["pseed"] % 7))
     feats = {"method": spec["method"], "richardson": spec["rich"], "family": info["family"], "direction": d, "problem": spec["problem"],
              "dt_class": "gt_span" if abs(spec["dt"]) > abs(tf - t0) else "le_span"}
+    if spec["kind"] == "closing":
+        # reference run over the whole span: find a step (not the first) whose first attempt h_a was rejected and that was accepted
+        # at h_b < h_a; a call targeting t_k + (h_a+h_b)/2 meets exactly that state with a proposed step > remaining > acceptable
+        ref = sysrun.make_system(prob.rhs, y0.copy(), t0, tf, spec["dt"], cls, rtol=spec["rtol"], atol=spec["atol"])
+        if hasattr(prob, "jac") and not info["explicit"]:
+            ref.equ_rhs.hook_jacobian_call(prob.jac)
+        rlog = StepLog(ref.integrator)
+        sysrun.call_integrate(ref, max_steps=60000, callback=lambda s_: rlog.attempts.append({"boundary": 1}))
+        groups, cur = [], []
+        for a in rlog.attempts:
+            if "boundary" in a:
+                groups.append(cur)
+                cur = []
+            else:
+                cur.append(a)
+        cands = [(k, g) for k, g in enumerate(groups) if k >= 2 and len(g) >= 2 and k < len(groups) - 1 and abs(g[-1]["h"]) < abs(g[0]["h"])]
+        if not cands:
+            rec.skipped = "closing: reference run has no rejected step to target"
+            return rec.out()
+        k, g = cands[len(cands) // 2]
+        tf = float(g[0]["t"] + 0.5 * (g[0]["h"] + g[-1]["h"]))
+        feats["problem"] = "quiet_bump_closing"
     system = sysrun.make_system(prob.rhs, y0, t0, tf, spec["dt"], cls, rtol=spec["rtol"], atol=spec["atol"])
     if hasattr(prob, "jac") and not info["explicit"]:
         system.equ_rhs.hook_jacobian_call(prob.jac)
@@ -151,6 +212,15 @@ def run_case(spec):
     nrej = _attempt_discipline(rec, slog, feats, d)
     t = np.asarray(system.t)
     y = np.asarray(system.y)
+    # was a closing (clipped to the remaining span) step rejected and retried?
+    cur = []
+    for a in slog.attempts + [{"boundary": 1}]:
+        if "boundary" in a:
+            if len(cur) > 1 and abs(cur[0]["h"] - (tf - cur[0]["t"])) <= 1e-9 * max(1.0, abs(tf)) and abs(cur[-1]["h"]) < abs(cur[0]["h"]):
+                rec.bump("closing_step_rejected")
+            cur = []
+        else:
+            cur.append(a)
     raised = seg["raised"]
     cause = getattr(seg["exc"], "__cause__", None) if raised else None
     if raised:
@@ -171,11 +241,15 @@ def run_case(spec):
     wk = 0
     for k in range(len(t)):
         ys = prob.ystar(float(t[k]))
-        r = float(np.max(np.abs(y[k].astype(np.longdouble) - ys) / (spec["atol"] + spec["rtol"] * np.abs(ys))))
+        mag = np.maximum(np.abs(ys), 0.1 * float(np.max(np.abs(ys))))    # a component passing through zero is judged on the solution's scale
+        r = float(np.max(np.abs(y[k].astype(np.longdouble) - ys) / (spec["atol"] + spec["rtol"] * mag)))
         nmem = int(np.sum(np.abs(tl[:k + 1] - tl[k]) <= T_mem)) if k else 1
         worst = max(worst, r)
         if r / max(1, nmem) > worst_norm:
             worst_norm, wk = r / max(1, nmem), k
+    if spec["kind"] == "closing" and not raised:
+        if abs(float(t[-1]) - tf) > 64 * 2.3e-16 * max(1.0, abs(tf)):
+            rec.violate("closing_step", "call_did_not_end_at_its_target", feats, t_last=float(t[-1]), target=tf)
     rec.bump("runs_checked")
     rec.bump("states_checked", len(t))
     rec.nontrivial = len(t) >= 6
@@ -191,7 +265,8 @@ def run_case(spec):
         idx = sorted(set(list(range(min(12, len(t) - 1))) + [int(i) for i in np.linspace(0, len(t) - 2, 60)]))
         for k in idx:
             ref = _local_flow(prob, spec["problem"], float(t[k]), y[k], float(t[k + 1]))
-            scale = spec["atol"] + spec["rtol"] * np.maximum(np.abs(y[k]), np.abs(y[k + 1]))
+            ymag = np.maximum(np.abs(y[k]), np.abs(y[k + 1]))
+            scale = spec["atol"] + spec["rtol"] * np.maximum(ymag, 0.1 * float(np.max(ymag)))
             r = float(np.max(np.abs(y[k + 1] - ref) / scale))
             rec.bump("local_steps_checked")
             if r > wl:
